@@ -184,9 +184,10 @@ Qed.
 
 (* ---------- the error flag ---------- *)
 Record invG (s : state) : Prop := {
-  ig_gerr : gerr s = true -> exists i, i < length c /\ st s i = Error /\ allow_of c i = false /\ In (ORet i false) (log s);
+  ig_gerr : gerr s = true -> exists i, i < length c /\ st s i = Error /\ allow_of c i = false;
   ig_hard : forall i, In (ORet i false) (log s) -> allow_of c i = false -> gerr s = true /\ st s i = Error;
-  ig_soft : forall i, st s i = Error -> allow_of c i = true -> cond_of c i <> CErr -> In i (pend s)
+  ig_soft : forall i, st s i = Error -> allow_of c i = true -> cond_of c i <> CErr -> In i (pend s);
+  ig_cerr : forall i, st s i = Error -> cond_of c i = CErr -> allow_of c i = false -> gerr s = true
 }.
 
 Lemma invG_init : invG init.
@@ -199,46 +200,57 @@ Proof.
                 | i Hf Hx Hi Hst Hc1 Hc2 Hck | i Hf Hx Hi Hst Hc1 Hc2 Hck | i Hf Hx Hi Hst Hc1 Hc2 Hck
                 | i Hf Hi Hst | i Hf Hi Hst Ha | i Hf Hi Hst Ha | i Hf Hp | Hf | Hf Hx Hex].
   - assumption.
-  - constructor; cbn [st log pend gerr].
-    + intros Hg. destruct (ig_gerr _ G Hg) as (j & Hj & Hs & Ha & Hl). exists j. repeat split; try assumption. updc; [congruence | assumption].
-    + intros j Hl Ha. destruct (ig_hard _ G j Hl Ha) as (Hg & Hs). split; [assumption|]. updc; [reflexivity | assumption].
+  - (* the condition cannot be evaluated: Error, and the run's error unless the stage allows failure *)
+    constructor; cbn [st log pend gerr].
+    + intros Hg. apply orb_true_iff in Hg. destruct Hg as [Hg|Hg].
+      * destruct (ig_gerr _ G Hg) as (j & Hj & Hs & Ha). exists j. repeat split; try assumption. updc; [congruence | assumption].
+      * apply negb_true_iff in Hg. exists i. repeat split; try assumption. apply upd_same.
+    + intros j Hl Ha. destruct (ig_hard _ G j Hl Ha) as (Hg & Hs). split; [rewrite Hg; reflexivity|]. updc; [reflexivity | assumption].
     + intros j Hs Ha Hc'. updc; [contradiction | apply (ig_soft _ G); assumption].
+    + intros j Hs Hc' Ha. updc; [rewrite Ha; apply orb_true_r | rewrite (ig_cerr _ G j Hs Hc' Ha); reflexivity].
   - constructor; cbn [st log pend gerr].
-    + intros Hg. destruct (ig_gerr _ G Hg) as (j & Hj & Hs & Ha & Hl). exists j. repeat split; try assumption. updc; [congruence | assumption].
+    + intros Hg. destruct (ig_gerr _ G Hg) as (j & Hj & Hs & Ha). exists j. repeat split; try assumption. updc; [congruence | assumption].
     + intros j Hl Ha. destruct (ig_hard _ G j Hl Ha) as (Hg & Hs). split; [assumption|]. updc; [congruence | assumption].
     + intros j Hs Ha Hc'. updc; [discriminate | apply (ig_soft _ G); assumption].
+    + intros j Hs Hc' Ha. updc; [discriminate | apply (ig_cerr _ G j); assumption].
   - destruct G; constructor; cbn [st log pend gerr]; assumption.
   - constructor; cbn [st log pend gerr].
-    + intros Hg. destruct (ig_gerr _ G Hg) as (j & Hj & Hs & Ha & Hl). exists j. repeat split; try assumption. updc; [congruence | assumption].
+    + intros Hg. destruct (ig_gerr _ G Hg) as (j & Hj & Hs & Ha). exists j. repeat split; try assumption. updc; [congruence | assumption].
     + intros j Hl Ha. destruct (ig_hard _ G j Hl Ha) as (Hg & Hs). split; [assumption|]. updc; [congruence | assumption].
     + intros j Hs Ha Hc'. updc; [discriminate | apply (ig_soft _ G); assumption].
+    + intros j Hs Hc' Ha. updc; [discriminate | apply (ig_cerr _ G j); assumption].
   - constructor; cbn [st log pend gerr].
-    + intros Hg. destruct (ig_gerr _ G Hg) as (j & Hj & Hs & Ha & Hl). exists j. repeat split; try assumption; [updc; [congruence | assumption] | right; assumption].
+    + intros Hg. destruct (ig_gerr _ G Hg) as (j & Hj & Hs & Ha). exists j. repeat split; try assumption. updc; [congruence | assumption].
     + intros j [Hl|Hl] Ha; [discriminate|]. destruct (ig_hard _ G j Hl Ha) as (Hg & Hs). split; [assumption|]. updc; [congruence | assumption].
     + intros j Hs Ha Hc'. updc; [discriminate | apply (ig_soft _ G); assumption].
+    + intros j Hs Hc' Ha. updc; [discriminate | apply (ig_cerr _ G j); assumption].
   - (* ret ok *)
     constructor; cbn [st log pend gerr].
-    + intros Hg. destruct (ig_gerr _ G Hg) as (j & Hj & Hs & Ha & Hl). exists j. repeat split; try assumption; [updc; [congruence | assumption] | right; assumption].
+    + intros Hg. destruct (ig_gerr _ G Hg) as (j & Hj & Hs & Ha). exists j. repeat split; try assumption. updc; [congruence | assumption].
     + intros j [Hl|Hl] Ha; [discriminate|]. destruct (ig_hard _ G j Hl Ha) as (Hg & Hs). split; [assumption|]. updc; [congruence | assumption].
     + intros j Hs Ha Hc'. updc; [discriminate | apply (ig_soft _ G); assumption].
+    + intros j Hs Hc' Ha. updc; [discriminate | apply (ig_cerr _ G j); assumption].
   - (* ret allowed *)
     constructor; cbn [st log pend gerr].
-    + intros Hg. destruct (ig_gerr _ G Hg) as (j & Hj & Hs & Ha' & Hl). exists j. repeat split; try assumption; [updc; [congruence | assumption] | right; assumption].
+    + intros Hg. destruct (ig_gerr _ G Hg) as (j & Hj & Hs & Ha'). exists j. repeat split; try assumption. updc; [congruence | assumption].
     + intros j [Hl|Hl] Ha'; [injection Hl as <-; congruence|]. destruct (ig_hard _ G j Hl Ha') as (Hg & Hs). split; [assumption|]. updc; [reflexivity | assumption].
     + intros j Hs Ha' Hc'. updc; [left; reflexivity | right; apply (ig_soft _ G); assumption].
+    + intros j Hs Hc' Ha'. updc; [congruence | apply (ig_cerr _ G j); assumption].
   - (* ret hard *)
     constructor; cbn [st log pend gerr].
-    + intros _. exists i. repeat split; try assumption; [rewrite upd_same; reflexivity | left; reflexivity].
+    + intros _. exists i. repeat split; try assumption. rewrite upd_same; reflexivity.
     + intros j [Hl|Hl] Ha'; [injection Hl as <-; split; [reflexivity | rewrite upd_same; reflexivity]|].
       destruct (ig_hard _ G j Hl Ha') as (Hg & Hs). split; [reflexivity|]. updc; [reflexivity | assumption].
     + intros j Hs Ha' Hc'. updc; [congruence | apply (ig_soft _ G); assumption].
+    + intros j Hs Hc' Ha'. reflexivity.
   - (* fin *)
     destruct (inv_pend _ _ I _ Hp) as (Hst & Ha & Hlog).
     constructor; cbn [st log pend gerr].
-    + intros Hg. destruct (ig_gerr _ G Hg) as (j & Hj & Hs & Ha' & Hl). exists j. repeat split; try assumption. updc; [congruence | assumption].
+    + intros Hg. destruct (ig_gerr _ G Hg) as (j & Hj & Hs & Ha'). exists j. repeat split; try assumption. updc; [congruence | assumption].
     + intros j Hl Ha'. destruct (ig_hard _ G j Hl Ha') as (Hg & Hs). split; [assumption|]. updc; [congruence | assumption].
     + intros j Hs Ha' Hc'. updc; [discriminate|]. apply filter_In. split; [apply (ig_soft _ G); assumption|].
       apply negb_true_iff, Nat.eqb_neq. auto.
+    + intros j Hs Hc' Ha'. updc; [discriminate | apply (ig_cerr _ G j); assumption].
   - destruct G; constructor; cbn [st log pend gerr]; assumption.
   - destruct G; constructor; cbn [st log pend gerr]; assumption.
 Qed.
@@ -254,17 +266,29 @@ Proof.
   apply X.
 Qed.
 
-(* the run reports an error exactly when some stage ended in Error *)
+(* the run reports an error exactly when some stage that does not allow failure ended in Error - because its task failed or
+   because its condition could not be evaluated (no hypothesis on the conditions any more: repair F18) *)
 Theorem error_iff_some_stage_failed es s :
+  exec c es s -> pend s = [] ->
+  (gerr s = true <-> exists i, i < length c /\ st s i = Error /\ allow_of c i = false).
+Proof.
+  intros Hex Hp. pose proof (exec_invG es s Hex) as G. destruct (exec_inv _ _ _ Hex) as (I & B). split.
+  - intros Hg. exact (ig_gerr _ G Hg).
+  - intros (i & Hi & Hs & Ha). destruct (inv_err _ _ I i Hs) as [Hl|Hc].
+    + apply (ig_hard _ G i Hl Ha).
+    + exact (ig_cerr _ G i Hs Hc Ha).
+Qed.
+
+(* ... and with conditions that can all be evaluated, a stage that allows failure never stays in Error: any Error is reported *)
+Corollary error_iff_some_stage_in_error es s :
   no_cond_err c -> exec c es s -> pend s = [] ->
   (gerr s = true <-> exists i, i < length c /\ st s i = Error).
 Proof.
-  intros Hnc Hex Hp. pose proof (exec_invG es s Hex) as G. destruct (exec_inv _ _ _ Hex) as (I & B). split.
-  - intros Hg. destruct (ig_gerr _ G Hg) as (i & Hi & Hs & _). exists i. split; assumption.
-  - intros (i & Hi & Hs). destruct (inv_err _ _ I i Hs) as [Hl|Hc]; [|exfalso; apply (Hnc i); assumption].
-    destruct (allow_of c i) eqn:Ha.
-    + exfalso. pose proof (ig_soft _ G i Hs Ha (Hnc i)) as Hin. rewrite Hp in Hin. destruct Hin.
-    + apply (ig_hard _ G i Hl Ha).
+  intros Hnc Hex Hp. rewrite (error_iff_some_stage_failed es s Hex Hp). split.
+  - intros (i & Hi & Hs & _). exists i. split; assumption.
+  - intros (i & Hi & Hs). exists i. repeat split; try assumption.
+    destruct (allow_of c i) eqn:Ha; [|reflexivity]. exfalso.
+    pose proof (ig_soft _ (exec_invG es s Hex) i Hs Ha (Hnc i)) as Hin. rewrite Hp in Hin. destruct Hin.
 Qed.
 
 (* which stages ran *)
